@@ -51,6 +51,58 @@ def run(ctx):
     ctx.extra["negative_controls"] = [{"corrupted_events": len(bad), "rejected": len(rej)}]
     if len(bad) < 4 or len(rej) != len(bad):
         raise core.Broken("negative control: corrupted writer events were accepted (%d of %d rejected)" % (len(rej), len(bad)))
+    exec_part(ctx)
+
+
+def exec_part(ctx):
+    """The written program executed by the specification's own PostScript machine (TraceT1Exec)."""
+    from checks import pscommon
+    d = ctx.specdir()
+    n = 12 if ctx.tier == "quick" else 200
+    tr = "t1exec.ndjson"
+    r = ctx.vh_json("trace-t1exec", os.path.join(d, tr), n, ctx.seed, timeout=1200)
+    for f in r.get("failures") or []:
+        ctx.violation(f["Sig"], f["What"], stimulus=f["Stim"], how="vh trace-t1exec")
+    lines = open(os.path.join(d, tr)).read().splitlines()
+    if not lines:
+        raise core.Broken("trace-t1exec produced no events")
+    cfg = ("CONSTANTS\n" + pscommon.PS_CONSTS + '  TraceFile = "%s"\n  BaseHeap <- FreshHeap\n'
+           "INIT Init\nNEXT Next\nINVARIANT Holds\nPOSTCONDITION Accepted\nCHECK_DEADLOCK FALSE\n")
+    res = ctx.tlc("TraceT1Exec", cfg % tr, workers=1, label="trace-t1exec", must_pass=False, timeout=2400, xss="512m")
+    if not res.ok:
+        raise core.Broken("TraceT1Exec did not consume the whole trace: %s\n%s" % (res.violated or res.error, res.out[-1500:]))
+    import re
+    rejected = [int(x) for x in re.findall(r'"REJECTED-EVENT", (\d+)', res.out)]
+    for idx in rejected:
+        ev = json.loads(lines[idx - 1])
+        ctx.violation("c08 program executed by PSMachine does not say what the font says",
+                      "the written font program, executed by the specification's PostScript machine, does not build the "
+                      "dictionaries the font describes (TraceT1Exec!Says)",
+                      stimulus="font id=%s %s" % (ev.get("id"), ev.get("opts")), how="vh trace-t1exec + TLC TraceT1Exec",
+                      spec="TraceT1Exec!Says")
+    ctx.traces += len(lines)
+    ctx.evaluations += len(lines)
+    ctx.extra["programs_executed_by_PSMachine"] = len(lines)
+    # negative control: one byte of a FontInfo string, one glyph dropped
+    k = next((i for i in range(len(lines)) if (i + 1) not in rejected), None)
+    if k is None:
+        return
+    bad = []
+    ev = json.loads(lines[k])
+    ev["want"]["strs"]["FullName"] = ev["want"]["strs"]["FullName"] + [33]
+    bad.append(ev)
+    ev = json.loads(lines[k])
+    ev["want"]["matrix"][0], ev["want"]["matrix"][1] = ev["want"]["matrix"][1], ev["want"]["matrix"][0]
+    bad.append(ev)
+    with open(os.path.join(d, "negexec.ndjson"), "w") as f:
+        for e in bad:
+            f.write(json.dumps(e) + "\n")
+    rn = ctx.tlc("TraceT1Exec", cfg % "negexec.ndjson", workers=1, label="trace-t1exec-negctl", must_pass=False, timeout=600,
+                 xss="512m", count=False)
+    nrej = len(re.findall(r'"REJECTED-EVENT", (\d+)', rn.out))
+    ctx.extra.setdefault("negative_controls", []).append({"corrupted_exec_events": len(bad), "rejected": nrej})
+    if nrej != len(bad):
+        raise core.Broken("negative control: corrupted TraceT1Exec events were accepted (%d of %d rejected)" % (nrej, len(bad)))
 
 
 def sig8(ev):
